@@ -170,6 +170,7 @@ type divergence struct {
 func locate(script []byte) (d divergence) {
 	v := newVM(script)
 	m := vmspec.New(script)
+	m.MaxSteps = 100000
 	prevOp, prevTag := "start", ""
 	for step := 1; step <= 100000; step++ {
 		vmIP := -1
